@@ -35,9 +35,9 @@ var c19Exprs = []string{
 
 // H_C19_let: differential against the reference's environment-passing scopes.
 func H_C19_let() {
-	vrtSpec(2, 2, 1, "a,b", smASCII, nfInt, 0)
+	vrtSpec(tq(2, 3), 2, 1, "a,b", smASCII, nfInt, 0)
 	vrtNumRange(0, 2)
-	vrtNested(1)
+	vrtNested(tq(1, 2))
 	k := vrtChoose("expr", len(c19Exprs))
 	expr := c19Exprs[k]
 	vrtNote("template:" + expr)
